@@ -1,8 +1,8 @@
 ------------------------------ MODULE IcuCases ------------------------------
 EXTENDS IcuNeeds, Json
 
-FmtText(f) ==
-    <<"LB", "LB", "SP", "v", "COMMA", "SP">>
+FmtVar(var, f) ==
+    <<"LB", "LB", "SP">> \o var \o <<"COMMA", "SP">>
     \o (CASE f = "number" -> <<"n","u","m","b","e","r">>
           [] f = "date" -> <<"d","a","t","e","LP","d","a","t","e","US","l","e","n","g","t","h","COLON","SP","l","o","n","g","RP">>
           [] f = "time" -> <<"t","i","m","e">>
@@ -10,6 +10,10 @@ FmtText(f) ==
           [] f = "list" -> <<"l","i","s","t","LP","l","i","s","t","US","t","y","p","e","COLON","SP","a","n","d","RP">>
           [] OTHER -> <<"c","u","r","r","e","n","c","y">>)
     \o <<"SP", "RB", "RB">>
+FmtText(f) == FmtVar(<<"v">>, f)
+Count == <<"c","o","u","n","t">>
+IsPluralFeat(f) == f \in {"plural", "plural_number", "plural_currency", "plural_date"}
+IsRangeFeat(f) == f \in {"range", "range_number"}
 
 FeatAt(p, unit, where, loc) ==
     LET U == { u \in p.uses : u.unit = unit /\ u.where = where /\ u.loc = loc } IN
@@ -19,7 +23,16 @@ FeatAt(p, unit, where, loc) ==
 SlotEntries(p, unit, where, loc, name) ==
     LET f == FeatAt(p, unit, where, loc) IN
     IF f = "plain" THEN << <<name, StrNode(<<"x">>)>> >>
-    ELSE IF f = "plural" THEN << <<name \o "_one", StrNode(<<"o">>)>>, <<name \o "_other", StrNode(<<"m">>)>> >>
+    ELSE IF IsPluralFeat(f)
+    THEN << <<name \o "_one", StrNode(<<"o">>)>>,
+            <<name \o "_other", StrNode(CASE f = "plural_number" -> FmtVar(Count, "number") \o <<"SP", "m">>
+                                          [] f = "plural_currency" -> FmtVar(Count, "currency") \o <<"SP", "m">>
+                                          [] f = "plural_date" -> <<"m", "SP">> \o FmtVar(<<"v">>, "date")
+                                          [] OTHER -> <<"m">>)>> >>
+    ELSE IF IsRangeFeat(f)
+    THEN << <<name, SeqNode(<< SeqNode(<<StrNode(<<"o">>), RawNode("0")>>),
+                               SeqNode(<<StrNode(IF f = "range_number" THEN FmtVar(Count, "number") ELSE <<"m">>)>>) >>)>> >>
+    ELSE IF f = "number_list" THEN << <<name, StrNode(FmtVar(<<"v">>, "number") \o <<"SP">> \o FmtVar(<<"w">>, "list"))>> >>
     ELSE << <<name, StrNode(FmtText(f))>> >>
 
 UnitFile(p, unit, loc) ==
@@ -28,7 +41,7 @@ UnitFile(p, unit, loc) ==
                                   \o << <<"h", MapNode(SlotEntries(p, unit, "g.h.u", loc, "u"))>> >>)>> >>
             \* a key that refers to the slot t of this unit (a reference never adds or removes a need)
             \o (LET tgt == (IF p.units = 0 THEN <<>> ELSE <<"n", IF unit = 1 THEN "1" ELSE "2", "COLON">>) \o <<"t">> IN
-                IF FeatAt(p, unit, "t", loc) = "plural"
+                IF IsPluralFeat(FeatAt(p, unit, "t", loc)) \/ IsRangeFeat(FeatAt(p, unit, "t", loc))
                 THEN << <<"ref", StrNode(<<"DOL","t","LP">> \o tgt \o <<"COMMA","SP","LB","QUOT","c","o","u","n","t","QUOT","COLON","SP","QUOT","LB","LB","n","RB","RB","QUOT","RB","RP">>)>> >>
                 ELSE << <<"ref", StrNode(<<"DOL","t","LP">> \o tgt \o <<"RP">>)>> >>))
 
@@ -51,7 +64,9 @@ Pairs(units, S) ==
 NoUse == { [units |-> 0, uses |-> {}], [units |-> 2, uses |-> {}] }
 \* a plural and a range may not share the count variable of one key: two uses on the same slot key in
 \* different locales are fine for formatters and plurals (kinds mix), so pairs are unrestricted
-WellFormed(p) == \A u1, u2 \in p.uses : (u1.unit = u2.unit /\ u1.where = u2.where /\ u1.loc = u2.loc) => u1 = u2
+WellFormed(p) ==
+    /\ \A u1, u2 \in p.uses : (u1.unit = u2.unit /\ u1.where = u2.where /\ u1.loc = u2.loc) => u1 = u2
+    /\ \A u1, u2 \in p.uses : (u1.unit = u2.unit /\ u1.where = u2.where) => ~(IsPluralFeat(u1.feat) /\ IsRangeFeat(u2.feat))
 
 QuickProjects == { p \in NoUse \cup Singles(0) \cup Singles(2)
                         \cup Pairs(2, { s \in Slots(2) : s.loc = "fr" /\ s.where # "g.s" }) : WellFormed(p) }
